@@ -22,6 +22,7 @@ from ..model import Program, walk_own, is_self_attr, dotted, repo_root
 from ..options import Schemas
 from ..report import AnalysisError
 from .. import locsets
+from ..model import key_in, canon as K
 
 MESH = "hypnotoad/core/mesh.py"
 EQ = "hypnotoad/core/equilibrium.py"
@@ -162,7 +163,7 @@ def _find_guards(mod, f, tokens):
     for n in ast.walk(f.node):
         if isinstance(n, ast.If) and _raising(n.body):
             t = mod.code(n.test)
-            if all(tok.replace(" ", "") in t for tok in tokens):
+            if all(key_in(tok, t) for tok in tokens):
                 out.append(n)
     return out
 
@@ -248,7 +249,7 @@ def r2(prog, rep):
         if deftok is not None:
             before = _preceding(f, g)
             texts = [mod.code(s) for s in before]
-            d = deftok.replace(" ", "")
+            d = K(deftok)
             pos = [i for i, x in enumerate(texts) if x.startswith(d) or d in x[: len(d) + 5]]
             okd = bool(pos)
             ok = ok and okd
@@ -263,11 +264,14 @@ def r2(prog, rep):
     rep.floor("R2.guards", n, 20)
     # unknown topologies raise in the writer
     w = prog.func(MESH, "BoutMesh.writeGridfile")
-    src = w.module.code(w.node)
-    for label, tok in (("more than two separatrices", 'raiseValueError("MorethantwoseparatricesnotsupportedbyBoutMesh")'),
-                       ("2 y-regions", 'raiseValueError("Unrecognizedtopologywith2y-regions")'),
-                       ("5 y-regions", 'raiseValueError("Unrecognizedtopologywith5y-regions")')):
-        rep.ob("R2", "writer refuses unsupported topology: %s" % label, tok in src, w.site(), "", key="guard/writer/" + label)
+    chains = _len_chains(w)
+    xs = chains.get("len(self.x_startinds)")
+    ys = chains.get("len(self.y_regions_noguards)")
+    rep.ob("R2", "writer refuses unsupported topology: more than two separatrices", xs is not None and _raising(xs[1]) and set(xs[0]) == {2, 3, 4}, w.site(),
+           "arms %s, else raises: %s" % (sorted(xs[0]), _raising(xs[1])) if xs else "dispatch on len(self.x_startinds) not found", key="guard/writer/more than two separatrices")
+    for k in (2, 5):
+        rep.ob("R2", "writer refuses unsupported topology: %d y-regions" % k, ys is not None and k in ys[0] and _raising(ys[0][k]), w.site(),
+               "" if ys else "dispatch on len(self.y_regions_noguards) not found", key="guard/writer/%d y-regions" % k)
     # perpendicular follower: iteration cap raises unless recover
     fp = prog.func(MESH, "followPerpendicular")
     handlers = [h for n_ in ast.walk(fp.node) if isinstance(n_, ast.Try) for h in n_.handlers if h.type is not None and "MaxIter" in fp.module.text(h.type)]
@@ -280,6 +284,35 @@ def r2(prog, rep):
     inner = [x for x in ast.walk(fp.node) if isinstance(x, ast.FunctionDef) and x.name == "f"]
     ok = bool(inner) and any(isinstance(x, ast.If) and "call_counter>=maxits" in fp.module.code(x.test) and _raising(x.body) for x in ast.walk(inner[0]))
     rep.ob("R2", "perpendicular follower counts right-hand-side calls and raises at maxits", ok, fp.site(), "", key="guard/followPerpendicular/counter")
+
+
+def _len_chains(f):
+    """if/elif chains of the form `<subject> == <int>`: subject text -> ({int: body}, final else body)"""
+    out = {}
+    mod = f.module
+    seen = set()
+    for n in ast.walk(f.node):
+        if not isinstance(n, ast.If) or id(n) in seen:
+            continue
+        arms, cur, subj = {}, n, None
+        while True:
+            t = cur.test
+            if not (isinstance(t, ast.Compare) and len(t.ops) == 1 and isinstance(t.ops[0], ast.Eq) and isinstance(t.comparators[0], ast.Constant) and isinstance(t.comparators[0].value, int)):
+                break
+            sj = mod.code(t.left)
+            if subj is None:
+                subj = sj
+            elif sj != subj:
+                break
+            seen.add(id(cur))
+            arms[t.comparators[0].value] = cur.body
+            if len(cur.orelse) == 1 and isinstance(cur.orelse[0], ast.If):
+                cur = cur.orelse[0]
+                continue
+            if subj and len(arms) > 1 and subj not in out:
+                out[subj] = (arms, cur.orelse)
+            break
+    return out
 
 
 # ---------------------------------------------------------------------------------
